@@ -666,7 +666,9 @@ async fn run_case_async(case: &MuxCase) -> MuxResult {
     }
     for w in writers {
         let ab = w.abort_handle();
-        match tokio::time::timeout(Duration::from_secs(5), w).await {
+        // (a writer whose payload has arrived may still be busy with the padding of its packet; behind a stalled transport
+        // that takes as long as the stall)
+        match tokio::time::timeout(Duration::from_secs(5) + Duration::from_millis(case.stall.map(|s| s.2 + 5_000).unwrap_or(0)), w).await {
             Ok(Ok(Ok(()))) => {}
             Ok(Ok(Err(e))) => problems.push((cause_of(case, UP, 0), "write_failed".into(), e)),
             Ok(Err(_)) => {}
@@ -695,7 +697,8 @@ async fn run_case_async(case: &MuxCase) -> MuxResult {
         }
     }
     // run until every task is idle (no timers are involved in the pipes, so a 1 s virtual sleep = quiescence)
-    tokio::time::sleep(Duration::from_secs(1)).await;
+    // (with a stalling transport, only once the stall is over)
+    tokio::time::sleep(Duration::from_secs(1) + Duration::from_millis(case.stall.map(|s| s.2 + 1_000).unwrap_or(0))).await;
     // the wire itself must be a sequence of complete frames
     let log = pair.c2s.log();
     let (frames, consumed) = crate::refcodec::parse_all(&log.bytes);
